@@ -308,6 +308,17 @@ impl<'a> Gen<'a> {
         r32c((self.u.s64[from][node].expect("node -> node"))(&c).unwrap_or([0.0; 3]))
     }
     fn unit(&mut self) -> f64 { self.rng.unit() }
+    /// is the colour (coordinates of `node`) inside the sRGB gamut (judged on its linear sRGB image in f64)?
+    fn in_gamut(&self, node: usize, c: &Col) -> bool {
+        let lin = if node == I_LINSRGB { *c } else { match self.u.s64[node][I_LINSRGB] { Some(f) => f(c).unwrap_or([-1.0; 3]), None => return true } };
+        lin.iter().all(|x| *x >= -1e-5 && *x <= 1.0 + 1e-5)
+    }
+    /// shrink the chroma-like components `ks` until the colour is in gamut
+    fn shrink_into_gamut(&self, node: usize, mut c: Col, ks: &[usize]) -> Col {
+        let mut n = 0;
+        while !self.in_gamut(node, &c) && n < 60 { for &k in ks { c[k] = r32(c[k] * 0.7); } n += 1; }
+        c
+    }
     /// in-gamut sRGB colour, with a mixture of scales so that dark colours (below the joins of the
     /// piecewise definitions) are as likely as bright ones
     fn srgb_any(&mut self) -> Col {
@@ -410,7 +421,7 @@ impl<'a> Gen<'a> {
                     }
                     "hneg" => [c[0], c[1], r32(c[2].rem_euclid(360.0) - 360.0)],
                     "h360" => [c[0], c[1], r32(c[2].rem_euclid(360.0) + 360.0)],
-                    "axis" => [c[0], c[1], *self.rng.pick(&[0.0, 90.0, 180.0, 270.0, 360.0, -90.0, -180.0])],
+                    "axis" => { let h = *self.rng.pick(&[0.0, 90.0, 180.0, 270.0, 360.0, -90.0, -180.0]); self.shrink_into_gamut(node, [c[0], c[1], h], &[1]) }
                     _ => bad_class(fam, cls),
                 }
             }
@@ -429,9 +440,9 @@ impl<'a> Gen<'a> {
                         }
                         c
                     }
-                    "a0p" | "a0n" => { let m = r32(c[2].abs().max(1e-3)); [c[0], 0.0, if cls == "a0p" { m } else { -m }] }
-                    "b0p" | "b0n" => { let m = r32(c[1].abs().max(1e-3)); [c[0], if cls == "b0p" { m } else { -m }, 0.0] }
-                    "diag" => { let m = r32(c[1].abs().max(1e-3)); [c[0], m, m] }
+                    "a0p" | "a0n" => { let m = r32(c[2].abs().max(1e-3)); self.shrink_into_gamut(node, [c[0], 0.0, if cls == "a0p" { m } else { -m }], &[1, 2]) }
+                    "b0p" | "b0n" => { let m = r32(c[1].abs().max(1e-3)); self.shrink_into_gamut(node, [c[0], if cls == "b0p" { m } else { -m }, 0.0], &[1, 2]) }
+                    "diag" => { let m = r32(c[1].abs().max(1e-3)); self.shrink_into_gamut(node, [c[0], m, m], &[1, 2]) }
                     _ => bad_class(fam, cls),
                 }
             }
@@ -680,8 +691,362 @@ where V::S: pn::PartialCmp + HasBoolMask<Mask = bool> {
 }
 fn mask_fns() -> Vec<MaskFn> { vec![mask_events::<f32x4>, mask_events::<f32x8>, mask_events::<f64x2>, mask_events::<f64x4>] }
 
-// OPS-PLACEHOLDER
-fn op_caps() -> Value { json!({}) }
+// ------------------------------------------------------------------------------------------------ operators
+
+pub struct OpIn<'a> { pub which: &'a str, pub a: &'a [Col], pub b: &'a [Col], pub f: &'a [f64], pub g: &'a [f64] }
+pub struct OpOut {
+    pub kind: &'static str,                       // "colour" (own coordinates, possibly + alpha), "num", "mask"
+    pub simd: Result<(Vec<Vec<f64>>, Vec<String>), String>,   // per lane values, and for masks the lane bit patterns
+    pub scalar: Vec<Result<Vec<f64>, String>>,
+}
+pub type OpFn = fn(&OpIn) -> Option<OpOut>;
+
+fn nc_of<A: SNode>() -> usize { if <A::Sc as Node>::NAME.ends_with("luma") { 1 } else { 3 } }
+fn col<N: Node>(c: N) -> Vec<f64> { let n = if N::NAME.ends_with("luma") { 1 } else { 3 }; c.arr()[..n].to_vec() }
+fn cola<N: Node>(c: N, a: N::T) -> Vec<f64> { let mut v = col(c); v.push(a.to64()); v }
+fn lanes_c<A: SNode>(c: A) -> (Vec<Vec<f64>>, Vec<String>) { (c.unpack().iter().map(|x| col(*x)).collect(), vec![]) }
+fn lanes_ca<A: SNode>(c: A, al: A::V) -> (Vec<Vec<f64>>, Vec<String>) {
+    let a = al.to_vec();
+    (c.unpack().iter().enumerate().map(|(i, x)| cola(*x, a[i])).collect(), vec![])
+}
+fn lanes_v<V: Wd>(v: V) -> (Vec<Vec<f64>>, Vec<String>) { (v.to_vec().iter().map(|x| vec![x.to64()]).collect(), vec![]) }
+fn lanes_m<V: Wd>(m: V) -> (Vec<Vec<f64>>, Vec<String>) {
+    let b = vbits(m);
+    (b.iter().map(|s| vec![if s.bytes().all(|c| c == b'f') { 1.0 } else { 0.0 }]).collect(), b)
+}
+fn bnum(b: bool) -> Vec<f64> { vec![b as u8 as f64] }
+
+fn run<A: SNode>(i: &OpIn, kind: &'static str,
+                 fs: impl Fn(A, A, A::V, A::V) -> (Vec<Vec<f64>>, Vec<String>),
+                 fc: impl Fn(A::Sc, A::Sc, SOf<A>, SOf<A>) -> Vec<f64>) -> OpOut {
+    let n = i.a.len();
+    let sa: Vec<A::Sc> = i.a.iter().map(<A::Sc as Node>::of).collect();
+    let sb: Vec<A::Sc> = if i.b.is_empty() { sa.clone() } else { i.b.iter().map(<A::Sc as Node>::of).collect() };
+    let f: Vec<SOf<A>> = (0..n).map(|k| <SOf<A>>::of64(i.f.get(k).copied().unwrap_or(0.0))).collect();
+    let g: Vec<SOf<A>> = (0..n).map(|k| <SOf<A>>::of64(i.g.get(k).copied().unwrap_or(0.0))).collect();
+    let simd = catch(|| fs(A::pack(&sa), A::pack(&sb), <A::V>::from_slice(&f), <A::V>::from_slice(&g)));
+    let scalar = (0..n).map(|k| catch(|| fc(sa[k], sb[k], f[k], g[k]))).collect();
+    OpOut { kind, simd, scalar }
+}
+
+macro_rules! opcap {
+    ($P:ident, $Y:ident, $N:ident, $f:ident, { $($bounds:tt)* }) => {
+        pub struct $P<A>(PhantomData<A>);
+        pub trait $Y { fn get(&self) -> Option<OpFn>; }
+        pub trait $N { fn get(&self) -> Option<OpFn> { None } }
+        impl<A> $Y for $P<A> where $($bounds)* { fn get(&self) -> Option<OpFn> { Some($f::<A>) } }
+        impl<A> $N for &$P<A> {}
+    };
+}
+// one generic function per trait; `which` selects the method
+macro_rules! opfn {
+    ($f:ident, { $($bounds:tt)* }, |$i:ident| { $($which:pat => $body:expr),* $(,)? }) => {
+        fn $f<A>($i: &OpIn) -> Option<OpOut> where $($bounds)* {
+            match $i.which { $($which => Some($body),)* _ => None }
+        }
+    };
+}
+type VOf<A> = <A as SNode>::V;
+type ScOf<A> = <A as SNode>::Sc;
+
+opfn!(op_mix, { A: SNode + Mix<Scalar = VOf<A>>, ScOf<A>: Mix<Scalar = SOf<A>> }, |i| {
+    "mix" => run::<A>(i, "colour", |a, b, f, _| lanes_c(a.mix(b, f)), |a, b, f, _| col(a.mix(b, f))) });
+opfn!(op_lighten, { A: SNode + Lighten<Scalar = VOf<A>>, ScOf<A>: Lighten<Scalar = SOf<A>> }, |i| {
+    "lighten" => run::<A>(i, "colour", |a, _, f, _| lanes_c(a.lighten(f)), |a, _, f, _| col(a.lighten(f))),
+    "lighten_fixed" => run::<A>(i, "colour", |a, _, f, _| lanes_c(a.lighten_fixed(f)), |a, _, f, _| col(a.lighten_fixed(f))) });
+opfn!(op_darken, { A: SNode + Darken<Scalar = VOf<A>>, ScOf<A>: Darken<Scalar = SOf<A>> }, |i| {
+    "darken" => run::<A>(i, "colour", |a, _, f, _| lanes_c(a.darken(f)), |a, _, f, _| col(a.darken(f))),
+    "darken_fixed" => run::<A>(i, "colour", |a, _, f, _| lanes_c(a.darken_fixed(f)), |a, _, f, _| col(a.darken_fixed(f))) });
+opfn!(op_saturate, { A: SNode + Saturate<Scalar = VOf<A>>, ScOf<A>: Saturate<Scalar = SOf<A>> }, |i| {
+    "saturate" => run::<A>(i, "colour", |a, _, f, _| lanes_c(a.saturate(f)), |a, _, f, _| col(a.saturate(f))),
+    "saturate_fixed" => run::<A>(i, "colour", |a, _, f, _| lanes_c(a.saturate_fixed(f)), |a, _, f, _| col(a.saturate_fixed(f))) });
+opfn!(op_desaturate, { A: SNode + Desaturate<Scalar = VOf<A>>, ScOf<A>: Desaturate<Scalar = SOf<A>> }, |i| {
+    "desaturate" => run::<A>(i, "colour", |a, _, f, _| lanes_c(a.desaturate(f)), |a, _, f, _| col(a.desaturate(f))),
+    "desaturate_fixed" => run::<A>(i, "colour", |a, _, f, _| lanes_c(a.desaturate_fixed(f)), |a, _, f, _| col(a.desaturate_fixed(f))) });
+opfn!(op_shift_hue, { A: SNode + ShiftHue<Scalar = VOf<A>>, ScOf<A>: ShiftHue<Scalar = SOf<A>> }, |i| {
+    "shift_hue" => run::<A>(i, "colour", |a, _, f, _| lanes_c(a.shift_hue(f)), |a, _, f, _| col(a.shift_hue(f))) });
+opfn!(op_clamp, { A: SNode + Clamp, ScOf<A>: Clamp }, |i| {
+    "clamp" => run::<A>(i, "colour", |a, _, _, _| lanes_c(a.clamp()), |a, _, _, _| col(a.clamp())) });
+opfn!(op_within, { A: SNode + IsWithinBounds<Mask = VOf<A>>, ScOf<A>: IsWithinBounds<Mask = bool> }, |i| {
+    "is_within_bounds" => run::<A>(i, "mask", |a, _, _, _| lanes_m(a.is_within_bounds()), |a, _, _, _| bnum(a.is_within_bounds())) });
+opfn!(op_arith_cc, { A: SNode + core::ops::Add<Output = A> + core::ops::Sub<Output = A>, ScOf<A>: core::ops::Add<Output = ScOf<A>> + core::ops::Sub<Output = ScOf<A>> }, |i| {
+    "add" => run::<A>(i, "colour", |a, b, _, _| lanes_c(a + b), |a, b, _, _| col(a + b)),
+    "sub" => run::<A>(i, "colour", |a, b, _, _| lanes_c(a - b), |a, b, _, _| col(a - b)) });
+opfn!(op_arith_cs, { A: SNode + core::ops::Add<VOf<A>, Output = A> + core::ops::Sub<VOf<A>, Output = A> + core::ops::Mul<VOf<A>, Output = A> + core::ops::Div<VOf<A>, Output = A>,
+                     ScOf<A>: core::ops::Add<SOf<A>, Output = ScOf<A>> + core::ops::Sub<SOf<A>, Output = ScOf<A>> + core::ops::Mul<SOf<A>, Output = ScOf<A>> + core::ops::Div<SOf<A>, Output = ScOf<A>> }, |i| {
+    "add_s" => run::<A>(i, "colour", |a, _, f, _| lanes_c(a + f), |a, _, f, _| col(a + f)),
+    "sub_s" => run::<A>(i, "colour", |a, _, f, _| lanes_c(a - f), |a, _, f, _| col(a - f)),
+    "mul_s" => run::<A>(i, "colour", |a, _, f, _| lanes_c(a * f), |a, _, f, _| col(a * f)),
+    "div_s" => run::<A>(i, "colour", |a, _, _, g| lanes_c(a / g), |a, _, _, g| col(a / g)) });
+opfn!(op_arith_mul, { A: SNode + core::ops::Mul<Output = A> + core::ops::Div<Output = A>, ScOf<A>: core::ops::Mul<Output = ScOf<A>> + core::ops::Div<Output = ScOf<A>> }, |i| {
+    "mul" => run::<A>(i, "colour", |a, b, _, _| lanes_c(a * b), |a, b, _, _| col(a * b)),
+    "div" => run::<A>(i, "colour", |a, b, _, _| lanes_c(a / b), |a, b, _, _| col(a / b)) });
+
+macro_rules! blend_arms {
+    ($i:ident, $A:ident, $($name:expr => $m:ident),*) => {
+        match $i.which {
+            $( $name => Some(run::<$A>($i, "colour",
+                |a, b, f, g| { let r = Alpha { color: a, alpha: f }.$m(Alpha { color: b, alpha: g }); lanes_ca(r.color, r.alpha) },
+                |a, b, f, g| { let r = Alpha { color: a, alpha: f }.$m(Alpha { color: b, alpha: g }); cola(r.color, r.alpha) })), )*
+            _ => None,
+        }
+    };
+}
+fn op_blend<A>(i: &OpIn) -> Option<OpOut>
+where A: SNode, Alpha<A, VOf<A>>: Blend, Alpha<ScOf<A>, SOf<A>>: Blend {
+    blend_arms!(i, A, "b_multiply" => multiply, "b_screen" => screen, "b_overlay" => overlay, "b_darken" => darken, "b_lighten" => lighten,
+                "b_dodge" => dodge, "b_burn" => burn, "b_hard_light" => hard_light, "b_soft_light" => soft_light, "b_difference" => difference,
+                "b_exclusion" => exclusion)
+}
+fn op_compose<A>(i: &OpIn) -> Option<OpOut>
+where A: SNode, Alpha<A, VOf<A>>: Compose, Alpha<ScOf<A>, SOf<A>>: Compose {
+    blend_arms!(i, A, "c_over" => over, "c_inside" => inside, "c_outside" => outside, "c_atop" => atop, "c_xor" => xor, "c_plus" => plus)
+}
+opfn!(op_euclid, { A: SNode + EuclideanDistance<Scalar = VOf<A>>, ScOf<A>: EuclideanDistance<Scalar = SOf<A>>, VOf<A>: pn::Sqrt, SOf<A>: pn::Sqrt }, |i| {
+    "distance_squared" => run::<A>(i, "num", |a, b, _, _| lanes_v(a.distance_squared(b)), |a, b, _, _| vec![a.distance_squared(b).to64()]),
+    "distance" => run::<A>(i, "num", |a, b, _, _| lanes_v(a.distance(b)), |a, b, _, _| vec![a.distance(b).to64()]) });
+opfn!(op_hyab, { A: SNode + HyAb<Scalar = VOf<A>>, ScOf<A>: HyAb<Scalar = SOf<A>> }, |i| {
+    "hybrid_distance" => run::<A>(i, "num", |a, b, _, _| lanes_v(a.hybrid_distance(b)), |a, b, _, _| vec![a.hybrid_distance(b).to64()]) });
+opfn!(op_delta_e, { A: SNode + DeltaE<Scalar = VOf<A>>, ScOf<A>: DeltaE<Scalar = SOf<A>> }, |i| {
+    "delta_e" => run::<A>(i, "num", |a, b, _, _| lanes_v(a.delta_e(b)), |a, b, _, _| vec![a.delta_e(b).to64()]) });
+opfn!(op_improved_delta_e, { A: SNode + ImprovedDeltaE<Scalar = VOf<A>>, ScOf<A>: ImprovedDeltaE<Scalar = SOf<A>> }, |i| {
+    "improved_delta_e" => run::<A>(i, "num", |a, b, _, _| lanes_v(a.improved_delta_e(b)), |a, b, _, _| vec![a.improved_delta_e(b).to64()]) });
+opfn!(op_ciede, { A: SNode + Ciede2000<Scalar = VOf<A>>, ScOf<A>: Ciede2000<Scalar = SOf<A>> }, |i| {
+    "ciede2000" => run::<A>(i, "num", |a, b, _, _| lanes_v(a.difference(b)), |a, b, _, _| vec![a.difference(b).to64()]) });
+opfn!(op_improved_ciede, { A: SNode + ImprovedCiede2000<Scalar = VOf<A>>, ScOf<A>: ImprovedCiede2000<Scalar = SOf<A>> }, |i| {
+    "improved_ciede2000" => run::<A>(i, "num", |a, b, _, _| lanes_v(a.improved_difference(b)), |a, b, _, _| vec![a.improved_difference(b).to64()]) });
+opfn!(op_wcag, { A: SNode + Wcag21RelativeContrast<Scalar = VOf<A>>, ScOf<A>: Wcag21RelativeContrast<Scalar = SOf<A>> }, |i| {
+    "relative_luminance" => run::<A>(i, "num", |a, _, _, _| lanes_v(a.relative_luminance().luma), |a, _, _, _| vec![a.relative_luminance().luma.to64()]),
+    "relative_contrast" => run::<A>(i, "num", |a, b, _, _| lanes_v(a.relative_contrast(b)), |a, b, _, _| vec![a.relative_contrast(b).to64()]) });
+
+opcap!(PMix, YMix, NMix, op_mix, { A: SNode + Mix<Scalar = VOf<A>>, ScOf<A>: Mix<Scalar = SOf<A>> });
+opcap!(PLighten, YLighten, NLighten, op_lighten, { A: SNode + Lighten<Scalar = VOf<A>>, ScOf<A>: Lighten<Scalar = SOf<A>> });
+opcap!(PDarken, YDarken, NDarken, op_darken, { A: SNode + Darken<Scalar = VOf<A>>, ScOf<A>: Darken<Scalar = SOf<A>> });
+opcap!(PSaturate, YSaturate, NSaturate, op_saturate, { A: SNode + Saturate<Scalar = VOf<A>>, ScOf<A>: Saturate<Scalar = SOf<A>> });
+opcap!(PDesaturate, YDesaturate, NDesaturate, op_desaturate, { A: SNode + Desaturate<Scalar = VOf<A>>, ScOf<A>: Desaturate<Scalar = SOf<A>> });
+opcap!(PShiftHue, YShiftHue, NShiftHue, op_shift_hue, { A: SNode + ShiftHue<Scalar = VOf<A>>, ScOf<A>: ShiftHue<Scalar = SOf<A>> });
+opcap!(PClamp, YClamp, NClamp, op_clamp, { A: SNode + Clamp, ScOf<A>: Clamp });
+opcap!(PWithin, YWithin, NWithin, op_within, { A: SNode + IsWithinBounds<Mask = VOf<A>>, ScOf<A>: IsWithinBounds<Mask = bool> });
+opcap!(PArithCc, YArithCc, NArithCc, op_arith_cc, { A: SNode + core::ops::Add<Output = A> + core::ops::Sub<Output = A>, ScOf<A>: core::ops::Add<Output = ScOf<A>> + core::ops::Sub<Output = ScOf<A>> });
+opcap!(PArithCs, YArithCs, NArithCs, op_arith_cs, { A: SNode + core::ops::Add<VOf<A>, Output = A> + core::ops::Sub<VOf<A>, Output = A> + core::ops::Mul<VOf<A>, Output = A> + core::ops::Div<VOf<A>, Output = A>,
+                     ScOf<A>: core::ops::Add<SOf<A>, Output = ScOf<A>> + core::ops::Sub<SOf<A>, Output = ScOf<A>> + core::ops::Mul<SOf<A>, Output = ScOf<A>> + core::ops::Div<SOf<A>, Output = ScOf<A>> });
+opcap!(PArithMul, YArithMul, NArithMul, op_arith_mul, { A: SNode + core::ops::Mul<Output = A> + core::ops::Div<Output = A>, ScOf<A>: core::ops::Mul<Output = ScOf<A>> + core::ops::Div<Output = ScOf<A>> });
+opcap!(PBlend, YBlend, NBlend, op_blend, { A: SNode, Alpha<A, VOf<A>>: Blend, Alpha<ScOf<A>, SOf<A>>: Blend });
+opcap!(PCompose, YCompose, NCompose, op_compose, { A: SNode, Alpha<A, VOf<A>>: Compose, Alpha<ScOf<A>, SOf<A>>: Compose });
+opcap!(PEuclid, YEuclid, NEuclid, op_euclid, { A: SNode + EuclideanDistance<Scalar = VOf<A>>, ScOf<A>: EuclideanDistance<Scalar = SOf<A>>, VOf<A>: pn::Sqrt, SOf<A>: pn::Sqrt });
+opcap!(PHyab, YHyab, NHyab, op_hyab, { A: SNode + HyAb<Scalar = VOf<A>>, ScOf<A>: HyAb<Scalar = SOf<A>> });
+opcap!(PDeltaE, YDeltaE, NDeltaE, op_delta_e, { A: SNode + DeltaE<Scalar = VOf<A>>, ScOf<A>: DeltaE<Scalar = SOf<A>> });
+opcap!(PImpDeltaE, YImpDeltaE, NImpDeltaE, op_improved_delta_e, { A: SNode + ImprovedDeltaE<Scalar = VOf<A>>, ScOf<A>: ImprovedDeltaE<Scalar = SOf<A>> });
+opcap!(PCiede, YCiede, NCiede, op_ciede, { A: SNode + Ciede2000<Scalar = VOf<A>>, ScOf<A>: Ciede2000<Scalar = SOf<A>> });
+opcap!(PImpCiede, YImpCiede, NImpCiede, op_improved_ciede, { A: SNode + ImprovedCiede2000<Scalar = VOf<A>>, ScOf<A>: ImprovedCiede2000<Scalar = SOf<A>> });
+opcap!(PWcag, YWcag, NWcag, op_wcag, { A: SNode + Wcag21RelativeContrast<Scalar = VOf<A>>, ScOf<A>: Wcag21RelativeContrast<Scalar = SOf<A>> });
+
+/// (capability group, methods, arity: needs a second colour, needs factor f, needs factor g)
+pub const OP_GROUPS: [(&str, &[&str]); 20] = [
+    ("mix", &["mix"]), ("lighten", &["lighten", "lighten_fixed"]), ("darken", &["darken", "darken_fixed"]),
+    ("saturate", &["saturate", "saturate_fixed"]), ("desaturate", &["desaturate", "desaturate_fixed"]), ("shift_hue", &["shift_hue"]),
+    ("clamp", &["clamp"]), ("within", &["is_within_bounds"]), ("arith_cc", &["add", "sub"]), ("arith_cs", &["add_s", "sub_s", "mul_s", "div_s"]),
+    ("arith_mul", &["mul", "div"]),
+    ("blend", &["b_multiply", "b_screen", "b_overlay", "b_darken", "b_lighten", "b_dodge", "b_burn", "b_hard_light", "b_soft_light", "b_difference", "b_exclusion"]),
+    ("compose", &["c_over", "c_inside", "c_outside", "c_atop", "c_xor", "c_plus"]),
+    ("euclid", &["distance_squared", "distance"]), ("hyab", &["hybrid_distance"]), ("delta_e", &["delta_e"]), ("improved_delta_e", &["improved_delta_e"]),
+    ("ciede", &["ciede2000"]), ("improved_ciede", &["improved_ciede2000"]), ("wcag", &["relative_luminance", "relative_contrast"]),
+];
+macro_rules! ops_of {
+    ($A:ty) => { vec![
+        (&PMix::<$A>(PhantomData)).get(), (&PLighten::<$A>(PhantomData)).get(), (&PDarken::<$A>(PhantomData)).get(),
+        (&PSaturate::<$A>(PhantomData)).get(), (&PDesaturate::<$A>(PhantomData)).get(), (&PShiftHue::<$A>(PhantomData)).get(),
+        (&PClamp::<$A>(PhantomData)).get(), (&PWithin::<$A>(PhantomData)).get(), (&PArithCc::<$A>(PhantomData)).get(), (&PArithCs::<$A>(PhantomData)).get(),
+        (&PArithMul::<$A>(PhantomData)).get(), (&PBlend::<$A>(PhantomData)).get(), (&PCompose::<$A>(PhantomData)).get(),
+        (&PEuclid::<$A>(PhantomData)).get(), (&PHyab::<$A>(PhantomData)).get(), (&PDeltaE::<$A>(PhantomData)).get(), (&PImpDeltaE::<$A>(PhantomData)).get(),
+        (&PCiede::<$A>(PhantomData)).get(), (&PImpCiede::<$A>(PhantomData)).get(), (&PWcag::<$A>(PhantomData)).get(),
+    ] };
+}
+macro_rules! ops_row { ($T:ident; [$($A:ident),*]; $list:tt) => { vec![ $( ops_of!($A<$T>) ),* ] }; }
+/// [vector type][node][group] -> Option<OpFn>
+#[inline(never)] fn ops_f32x4() -> Vec<Vec<Option<OpFn>>> { with_nodes!(ops_row, f32x4) }
+#[inline(never)] fn ops_f32x8() -> Vec<Vec<Option<OpFn>>> { with_nodes!(ops_row, f32x8) }
+#[inline(never)] fn ops_f64x2() -> Vec<Vec<Option<OpFn>>> { with_nodes!(ops_row, f64x2) }
+#[inline(never)] fn ops_f64x4() -> Vec<Vec<Option<OpFn>>> { with_nodes!(ops_row, f64x4) }
+fn op_tables() -> Vec<Vec<Vec<Option<OpFn>>>> { vec![ops_f32x4(), ops_f32x8(), ops_f64x2(), ops_f64x4()] }
+fn op_caps() -> Value {
+    let t = op_tables();
+    let mut m = serde_json::Map::new();
+    for (vi, vt) in ["f32x4", "f32x8", "f64x2", "f64x4"].iter().enumerate() {
+        let rows: Vec<Vec<u8>> = t[vi].iter().map(|r| r.iter().map(|f| f.is_some() as u8).collect()).collect();
+        m.insert(vt.to_string(), json!(rows));
+    }
+    m.insert("groups".into(), json!(OP_GROUPS.iter().map(|g| g.0).collect::<Vec<_>>()));
+    Value::Object(m)
+}
+
+impl<'a> Drv<'a> {
+    /// every operator available for `node` on every vector type, `reps` groups of inputs each
+    fn ops(&mut self, g: &mut Gen, node: usize, reps: u64, only: &[String], explicit: Option<(&[Col], &[Col], &[f64], &[f64], &str)>) {
+        let tables = op_tables();
+        let vts = [("f32x4", 4usize, "f32"), ("f32x8", 8, "f32"), ("f64x2", 2, "f64"), ("f64x4", 4, "f64")];
+        let nn = ncomp(node);
+        for (vi, (vt, n, t)) in vts.iter().enumerate() {
+            if let Some((a, _, _, _, evt)) = explicit { if a.len() != *n || evt != *vt { continue; } }
+            for (gi, (grp, methods)) in OP_GROUPS.iter().enumerate() {
+                let f = match tables[vi][node][gi] { Some(f) => f, None => continue };
+                for which in methods.iter() {
+                    if !only.is_empty() && !only.iter().any(|o| o == which) { continue; }
+                    for _ in 0..reps {
+                        let (a, b, ff, gg): (Vec<Col>, Vec<Col>, Vec<f64>, Vec<f64>) = match explicit {
+                            Some((a, b, f, g, _)) => (a.to_vec(), b.to_vec(), f.to_vec(), g.to_vec()),
+                            None => {
+                                let a: Vec<Col> = (0..*n).map(|_| g.op_colour(node)).collect();
+                                let b: Vec<Col> = (0..*n).map(|k| if g.rng.below(6) == 0 { a[k] } else { g.op_colour(node) }).collect();
+                                let amt = *which == "shift_hue";
+                                let ff: Vec<f64> = (0..*n).map(|_| g.op_factor(amt)).collect();
+                                let gg: Vec<f64> = (0..*n).map(|_| if *which == "div_s" { r32(g.rng.range(0.1, 3.0)) } else { g.op_factor(false) }).collect();
+                                (a, b, ff, gg)
+                            }
+                        };
+                        let o = match f(&OpIn { which, a: &a, b: &b, f: &ff, g: &gg }) { Some(o) => o, None => continue };
+                        self.gid += 1;
+                        for i in 0..*n {
+                            let sp = o.simd.is_err() as u8;
+                            let cp = o.scalar[i].is_err() as u8;
+                            let so: Vec<f64> = o.simd.as_ref().map(|v| v.0[i].clone()).unwrap_or_default();
+                            let co: Vec<f64> = o.scalar[i].clone().unwrap_or_default();
+                            let mb = o.simd.as_ref().ok().and_then(|v| v.1.get(i).cloned()).unwrap_or_default();
+                            let (hs, hc) = if o.kind == "colour" && so.len() >= nn && co.len() >= nn {
+                                let mut x = [0.0; 3]; let mut y = [0.0; 3];
+                                x[..nn].copy_from_slice(&so[..nn]); y[..nn].copy_from_slice(&co[..nn]);
+                                (exc(&self.u.hub(node, &x), 3), exc(&self.u.hub(node, &y), 3))
+                            } else { (json!([]), json!([])) };
+                            self.rec.ev(json!({"ev": "op", "gid": self.gid, "grp": grp, "op": which, "node": NAMES[node], "vt": vt, "t": t, "n": n, "lane": i,
+                                "kind": o.kind, "in": exc(&a[i], nn), "in2": exc(&b[i], nn), "f": [ex64(ff[i]), ex64(gg[i])],
+                                "simd": exv(&so), "scalar": exv(&co), "mb": mb, "hs": hs, "hc": hc, "sp": sp, "cp": cp}));
+                        }
+                    }
+                }
+            }
+        }
+    }
+}
+impl<'a> Gen<'a> {
+    /// operand for operators: mostly in-gamut colours, sometimes on or just outside a bound (for clamp / is_within_bounds)
+    fn op_colour(&mut self, node: usize) -> Col {
+        let mut c = self.random_in(node);
+        match self.rng.below(8) {
+            0 => { let k = self.rng.below(ncomp(node) as u64) as usize; c[k] = r32(c[k] * 1.5 + 0.3); }
+            1 => { let k = self.rng.below(ncomp(node) as u64) as usize; c[k] = r32(-c[k].abs() * 0.2 - 0.01); }
+            2 => { let k = self.rng.below(ncomp(node) as u64) as usize; c[k] = *self.rng.pick(&[0.0, 1.0, 100.0, 0.5, 360.0, 180.0]); }
+            _ => {}
+        }
+        c
+    }
+    fn op_factor(&mut self, amount: bool) -> f64 {
+        if amount { return r32(*self.rng.pick(&[0.0, 30.0, -30.0, 180.0, -180.0, 360.0, 400.5, -725.25, 90.0, 12.5])); }
+        match self.rng.below(8) {
+            0 => 0.0, 1 => 1.0, 2 => 0.5, 3 => r32(-self.rng.range(0.0, 0.5)), 4 => r32(1.0 + self.rng.range(0.0, 0.5)),
+            _ => r32(self.rng.unit()),
+        }
+    }
+}
+
+// ------------------------------------------------------------------------------------------------ numeric traits on vectors
+
+pub trait WdNum: WdMask + pn::Real + pn::Trigonometry + pn::Abs + pn::Sqrt + pn::Cbrt + pn::Powf + pn::Powi + pn::Recip + pn::Exp + pn::Ln + pn::Hypot
+    + pn::Round + pn::Clamp + pn::MulAdd + pn::MulSub + pn::Signum + pn::MinMax + pn::IsValidDivisor + RealAngle + SignedAngle + UnsignedAngle + AngleEq
+where Self::S: pn::PartialCmp + HasBoolMask<Mask = bool> {}
+impl WdNum for f32x4 {}
+impl WdNum for f32x8 {}
+impl WdNum for f64x2 {}
+impl WdNum for f64x4 {}
+pub trait SNum: Flt + pn::Real + pn::Trigonometry + pn::Abs + pn::Sqrt + pn::Cbrt + pn::Powf + pn::Powi + pn::Recip + pn::Exp + pn::Ln + pn::Hypot
+    + pn::Round + pn::Clamp + pn::MulAdd + pn::MulSub + pn::Signum + pn::MinMax + pn::IsValidDivisor + RealAngle + SignedAngle + UnsignedAngle + AngleEq
+    + pn::PartialCmp + HasBoolMask<Mask = bool> {}
+impl SNum for f32 {}
+impl SNum for f64 {}
+
+fn num_events<V: WdNum>(rng: &mut Sm64, rec: &mut Rec, gid: &mut u64)
+where V::S: SNum {
+    let n = V::N;
+    let angles = [0.0, 360.0, -360.0, 180.0, -180.0, 540.0, 720.0, 90.0, 359.5, -0.5, 1e-3, 725.25, -1085.5, 179.99, 400.0];
+    let halves = [0.5, 1.5, 2.5, -0.5, -1.5, -2.5, 3.5, 0.49999997, 1e6 + 0.5, 0.0, -0.0, 7.0];
+    type Un<V> = (&'static str, u8, fn(V) -> V, fn(<V as Wd>::S) -> <V as Wd>::S);
+    // Only the functions that colour conversions / operators on wide types reach (Round::round - ties to even in `wide`, away from
+    // zero in std - Ln, Exp, tan, asin, acos, atan are implemented for wide types but used by no colour code of this universe).
+    // domain: 0 angle, 1 halves/any, 2 positive, 3 unit interval signed, 4 small, 5 exponents / bases of the transfer functions
+    let un: Vec<Un<V>> = vec![
+        ("normalize_unsigned_angle", 0, |x| UnsignedAngle::normalize_unsigned_angle(x), |x| UnsignedAngle::normalize_unsigned_angle(x)),
+        ("normalize_signed_angle", 0, |x| SignedAngle::normalize_signed_angle(x), |x| SignedAngle::normalize_signed_angle(x)),
+        ("degrees_to_radians", 0, |x| RealAngle::degrees_to_radians(x), |x| RealAngle::degrees_to_radians(x)),
+        ("radians_to_degrees", 4, |x| RealAngle::radians_to_degrees(x), |x| RealAngle::radians_to_degrees(x)),
+        ("floor", 1, |x| pn::Round::floor(x), |x| pn::Round::floor(x)), ("ceil", 1, |x| pn::Round::ceil(x), |x| pn::Round::ceil(x)),
+        ("abs", 1, |x| pn::Abs::abs(x), |x| pn::Abs::abs(x)),
+        ("signum", 1, |x| pn::Signum::signum(x), |x| pn::Signum::signum(x)),
+        ("sqrt", 2, |x| pn::Sqrt::sqrt(x), |x| pn::Sqrt::sqrt(x)), ("cbrt", 1, |x| pn::Cbrt::cbrt(x), |x| pn::Cbrt::cbrt(x)),
+        ("recip", 2, |x| pn::Recip::recip(x), |x| pn::Recip::recip(x)),
+        ("powi2", 1, |x| pn::Powi::powi(x, 2), |x| pn::Powi::powi(x, 2)), ("powi3", 1, |x| pn::Powi::powi(x, 3), |x| pn::Powi::powi(x, 3)),
+        ("sin", 4, |x| pn::Trigonometry::sin(x), |x| pn::Trigonometry::sin(x)), ("cos", 4, |x| pn::Trigonometry::cos(x), |x| pn::Trigonometry::cos(x)),
+    ];
+    type Bi<V> = (&'static str, u8, fn(V, V) -> V, fn(<V as Wd>::S, <V as Wd>::S) -> <V as Wd>::S);
+    let bi: Vec<Bi<V>> = vec![
+        ("powf", 5, |x, y| pn::Powf::powf(x, y), |x, y| pn::Powf::powf(x, y)),
+        ("atan2", 1, |x, y| pn::Trigonometry::atan2(x, y), |x, y| pn::Trigonometry::atan2(x, y)),
+        ("hypot", 1, |x, y| pn::Hypot::hypot(x, y), |x, y| pn::Hypot::hypot(x, y)),
+        ("min", 1, |x, y| pn::MinMax::min(x, y), |x, y| pn::MinMax::min(x, y)), ("max", 1, |x, y| pn::MinMax::max(x, y), |x, y| pn::MinMax::max(x, y)),
+        ("clamp01", 1, |x, _| pn::Clamp::clamp(x, <V as pn::Real>::from_f64(0.0), <V as pn::Real>::from_f64(1.0)), |x, _| pn::Clamp::clamp(x, <V::S as pn::Real>::from_f64(0.0), <V::S as pn::Real>::from_f64(1.0))),
+        ("mul_add", 1, |x, y| pn::MulAdd::mul_add(x, y, <V as pn::Real>::from_f64(0.055)), |x, y| pn::MulAdd::mul_add(x, y, <V::S as pn::Real>::from_f64(0.055))),
+        ("mul_sub", 1, |x, y| pn::MulSub::mul_sub(x, y, <V as pn::Real>::from_f64(0.055)), |x, y| pn::MulSub::mul_sub(x, y, <V::S as pn::Real>::from_f64(0.055))),
+    ];
+    let draw = |rng: &mut Sm64, dom: u8| -> f64 {
+        r32(match dom {
+            0 => if rng.coin() { *rng.pick(&angles) } else { rng.range(-1100.0, 1100.0) },
+            1 => if rng.coin() { *rng.pick(&halves) } else { rng.range(-3.0, 3.0) },
+            2 => if rng.below(4) == 0 { *rng.pick(&[1.0, 116.0, 500.0, 200.0, 2.4, 0.5]) } else { rng.range(1e-3, 3.0) },
+            3 => if rng.below(4) == 0 { *rng.pick(&[0.0, 1.0, -1.0, 0.5]) } else { rng.range(-1.0, 1.0) },
+            5 => if rng.below(4) == 0 { *rng.pick(&[2.4, 1.0 / 2.4, 3.0, 0.5, 1.0]) } else { rng.range(0.3, 3.0) },
+            _ => rng.range(-6.3, 6.3),
+        })
+    };
+    let mut emit = |rec: &mut Rec, op: &str, kind: &str, x: &[f64], y: &[f64], simd: Result<(Vec<Vec<f64>>, Vec<String>), String>, sc: Vec<Result<Vec<f64>, String>>| {
+        *gid += 1;
+        for i in 0..n {
+            let so: Vec<f64> = simd.as_ref().map(|v| v.0[i].clone()).unwrap_or_default();
+            let mb = simd.as_ref().ok().and_then(|v| v.1.get(i).cloned()).unwrap_or_default();
+            rec.ev(json!({"ev": "op", "gid": *gid, "grp": "num", "op": op, "node": "num", "vt": V::VT, "t": <V::S>::TN, "n": n, "lane": i, "kind": kind,
+                "in": [ex64(x[i])], "in2": [ex64(y[i])], "f": [], "simd": exv(&so), "scalar": exv(&sc[i].clone().unwrap_or_default()), "mb": mb,
+                "hs": [], "hc": [], "sp": simd.is_err() as u8, "cp": sc[i].is_err() as u8}));
+        }
+    };
+    for (name, dom, fv, fs) in un.iter() {
+        let x: Vec<f64> = (0..n).map(|_| draw(rng, *dom)).collect();
+        let sx: Vec<V::S> = x.iter().map(|v| <V::S>::of64(*v)).collect();
+        let simd = catch(|| lanes_v(fv(V::from_slice(&sx))));
+        let sc = sx.iter().map(|&v| catch(|| vec![fs(v).to64()])).collect();
+        emit(rec, name, "num", &x, &x, simd, sc);
+    }
+    for (name, dom, fv, fs) in bi.iter() {
+        let x: Vec<f64> = (0..n).map(|_| draw(rng, *dom)).collect();
+        let y: Vec<f64> = (0..n).map(|_| draw(rng, *dom)).collect();
+        let sx: Vec<V::S> = x.iter().map(|v| <V::S>::of64(*v)).collect();
+        let sy: Vec<V::S> = y.iter().map(|v| <V::S>::of64(*v)).collect();
+        let simd = catch(|| lanes_v(fv(V::from_slice(&sx), V::from_slice(&sy))));
+        let sc = (0..n).map(|k| catch(|| vec![fs(sx[k], sy[k]).to64()])).collect();
+        emit(rec, name, "num", &x, &y, simd, sc);
+    }
+    // mask-valued
+    {
+        let x: Vec<f64> = (0..n).map(|_| if rng.coin() { 0.0 } else { draw(rng, 1) }).collect();
+        let sx: Vec<V::S> = x.iter().map(|v| <V::S>::of64(*v)).collect();
+        let simd = catch(|| lanes_m(pn::IsValidDivisor::is_valid_divisor(&V::from_slice(&sx))));
+        let sc = sx.iter().map(|v| catch(|| bnum(pn::IsValidDivisor::is_valid_divisor(v)))).collect();
+        emit(rec, "is_valid_divisor", "mask", &x, &x, simd, sc);
+        let x: Vec<f64> = (0..n).map(|_| *rng.pick(&[0.0, 90.0, 180.0, -180.0, 359.0, 12.5])).collect();
+        let y: Vec<f64> = (0..n).map(|k| x[k] + *rng.pick(&[0.0, 360.0, -360.0, 720.0, 1.0, 180.0])).collect();
+        let sx: Vec<V::S> = x.iter().map(|v| <V::S>::of64(*v)).collect();
+        let sy: Vec<V::S> = y.iter().map(|v| <V::S>::of64(*v)).collect();
+        let simd = catch(|| lanes_m(AngleEq::angle_eq(&V::from_slice(&sx), &V::from_slice(&sy))));
+        let sc = (0..n).map(|k| catch(|| bnum(AngleEq::angle_eq(&sx[k], &sy[k])))).collect();
+        emit(rec, "angle_eq", "mask", &x, &y, simd, sc);
+    }
+}
 
 // ------------------------------------------------------------------------------------------------ f32 versus f64
 
@@ -751,6 +1116,27 @@ fn main() {
             }
             "mask" => {
                 for _ in 0..c["count"].as_u64().unwrap_or(1) { for f in mask_fns() { f(&mut g.rng, &mut d.rec); } }
+            }
+            "ops" => {
+                let only = strs(&c["only"]);
+                let nodes: Vec<usize> = { let l = strs(&c["nodes"]); if l.is_empty() { (0..19).collect() } else { l.iter().map(|s| idx(s)).collect() } };
+                if let Some(a) = c.get("a") {
+                    // explicit operands (replay): {"op":"ops","nodes":[node],"only":[method],"vt":"f32x4","a":[[hex..]..],"b":[..],"f":[hex..],"g":[hex..]}
+                    let cols = |v: &Value| -> Vec<Col> { v.as_array().unwrap().iter().map(|l| { let mut o = [0.0; 3]; for (k, s) in l.as_array().unwrap().iter().enumerate() { o[k] = hexf(s.as_str().unwrap()); } o }).collect() };
+                    let nums = |v: &Value| -> Vec<f64> { v.as_array().unwrap().iter().map(|s| hexf(s.as_str().unwrap())).collect() };
+                    let (a, b, f, gg) = (cols(a), cols(&c["b"]), nums(&c["f"]), nums(&c["g"]));
+                    d.ops(&mut g, nodes[0], 1, &only, Some((&a, &b, &f, &gg, c["vt"].as_str().unwrap())));
+                } else {
+                    for node in nodes { d.ops(&mut g, node, c["count"].as_u64().unwrap_or(1), &only, None); }
+                }
+            }
+            "num" => {
+                for _ in 0..c["count"].as_u64().unwrap_or(1) {
+                    num_events::<f32x4>(&mut g.rng, &mut d.rec, &mut d.gid);
+                    num_events::<f32x8>(&mut g.rng, &mut d.rec, &mut d.gid);
+                    num_events::<f64x2>(&mut g.rng, &mut d.rec, &mut d.gid);
+                    num_events::<f64x4>(&mut g.rng, &mut d.rec, &mut d.gid);
+                }
             }
             "prec" => {
                 let from = idx(c["from"].as_str().unwrap());
